@@ -62,6 +62,8 @@ def _exc_name(r):
         return "none"
     if _is_exit(r):
         return "ExitMainLoop"
+    if r.get("kind") not in (None, "boom"):
+        return r["kind"]  # workload exception kinds other than the plain Boom are named by kind
     return r.get("type", "?")
 
 
@@ -400,7 +402,7 @@ def check(hist: list[dict], mode: str, eps_due: float, res_order: float, qwait: 
             if _is_exit(first):
                 if outcome != "return":
                     if exc.get("identical") and not _is_exit(exc) and any(_same(exc, x) for x in later):
-                        d = f"exit-then-{_exc_name(exc)}-from-a-later-callback-raised-by-run"
+                        d = f"exit-then-{'Boom' if exc.get('tag') is not None else _exc_name(exc)}-from-a-later-callback-raised-by-run"
                     elif exc["type"].endswith("ExceptionGroup"):
                         d = "exit-and-later-exception-grouped"
                     else:
